@@ -421,6 +421,20 @@ class _Store:
         return (bytes(self.ub), self.version, self.root.dump())
 
 
+class Crash(BaseException):
+    """Simulated process death (fault injection): raised by the N-th mutating primitive."""
+
+
+CRASH = {"at": None, "n": 0}
+
+
+def _tick(kind, name):
+    CRASH["n"] += 1
+    if CRASH["at"] is not None and CRASH["n"] == CRASH["at"]:
+        CRASH["at"] = None
+        raise Crash("%s %s" % (kind, name))
+
+
 FS = {}  # name -> _Store | bytearray
 LOG = []  # write log: (kind, filename) in order -- used for commit-ordering checks
 _OPEN_RW = {}  # name -> number of writable handles (h5py refuses a second writer)
@@ -434,16 +448,19 @@ class File(Group):
         if mode in ("x", "w-"):
             if name in FS:
                 raise FileExistsError("Unable to create file (file exists): %s" % name)
+            _tick("create", name)
             st = FS[name] = _Store(userblock_size)
             LOG.append(("create", name))
             eff = "r+"
         elif mode == "w":
+            _tick("truncate", name)
             st = FS[name] = _Store(userblock_size)
             LOG.append(("truncate", name))
             eff = "r+"
         elif mode == "a":
             st = FS.get(name)
             if st is None:
+                _tick("create", name)
                 st = FS[name] = _Store(userblock_size)
                 LOG.append(("create", name))
             eff = "r+"
@@ -473,6 +490,7 @@ class File(Group):
         self._o()
         if self.mode == "r":
             raise ValueError("Unable to modify (file is read-only)")
+        _tick("h5write", self.filename)
         self._store.version += 1
         self._store.mtime += 1
         LOG.append(("h5write", self.filename))
@@ -525,6 +543,7 @@ class _Stream:
     def write(self, data):
         if "r" in self.mode and "+" not in self.mode:
             raise OSError("not writable")
+        _tick("rawwrite", self.name)
         if isinstance(self.st, _Store):
             if self.pos + len(data) > len(self.st.ub):
                 raise AssertionError("write beyond the user block would corrupt the HDF5 payload")
@@ -552,6 +571,7 @@ class _Stream:
 def fake_open(name, mode="r", *a, **kw):
     name = str(name)
     if "w" in mode:
+        _tick("truncate", name)
         FS[name] = bytearray()
         LOG.append(("truncate", name))
     if name not in FS:
@@ -574,6 +594,7 @@ class FakePath(PurePosixPath):
             if missing_ok:
                 return
             raise FileNotFoundError(str(self))
+        _tick("unlink", str(self))
         del FS[str(self)]
         LOG.append(("unlink", str(self)))
 
@@ -591,6 +612,7 @@ class FakePath(PurePosixPath):
 def reset():
     FS.clear()
     del LOG[:]
+    CRASH["at"], CRASH["n"] = None, 0
 
 
 def snapshot():
